@@ -108,6 +108,20 @@ def generate(repo_root=os.environ.get('VERIF_REPO', '/repo')):
     for name, body in DELEGATES.items():
         if name not in methods or [ast.unparse(s) for s in _body(methods[name])] != body:
             raise Untranslatable(f"_SubUnitsList.{name} is not the delegation the model assumes ({'; '.join(body)})")
+    # __deepcopy__: the copy's list is owned by the COPY of the owner (taken from the memo or made now) and filled element by element through the adopting
+    # `append` of the result, so every element of the copy is adopted by the copy's owner: its effect per element is `append`'s
+    dc = methods.get('__deepcopy__')
+    if dc is None:
+        raise Untranslatable("_SubUnitsList.__deepcopy__ is not overridden: list's own deep copy keeps no owner")
+    body = [ast.unparse(x) for x in _body(dc)]
+    want = ['cls = self.__class__', 'result = cls.__new__(cls)', 'o = self._owner()',
+            'if id(o) in memo:\n    result._owner = weakref.ref(memo[id(o)])\nelse:\n    result._owner = weakref.ref(copy.deepcopy(o, memo))',
+            'for e in self:\n    result.append(copy.deepcopy(e, memo))', 'return result']
+    if body != want:
+        diff = next((f"`{b[:60]}` where `{w[:60]}` is modelled" for b, w in zip(body, want) if b != w), f"{len(body)} statements, {len(want)} modelled")
+        raise Untranslatable(f"_SubUnitsList.__deepcopy__ is not the construction the model assumes (owner := copy of the owner; every element added through the "
+                             f"adopting append of the copy): {diff}")
+    table.append(('__deepcopy__:element', dict(table)['append']))
     # list methods that change membership but are NOT overridden would bypass the parent bookkeeping; those the model covers must be present,
     # anything else that is overridden must be known
     known = set(ROLES) | set(DELEGATES) | {'_repr_html_', '__deepcopy__'}
